@@ -25,6 +25,9 @@ RULE = (
     " or two zero-sized code blocks (left by an earlier rewrite), with"
     " edits placed around them; 12% of the x86-64 patches are written in"
     " Intel syntax; patches may name labels of patches applied earlier;"
+    " 12% of the IRs hold a second module the rewrite is not about (a twin"
+    " with the same symbol/section/function names, or an unrelated module"
+    " of any ISA) whose facets (here: bytes) must come out unchanged;"
     " label-only contents for another section are an expected refusal."
 )
 ASSUMPTIONS = [
@@ -44,4 +47,5 @@ def run_case(case):
         v, c = oracles.check_bytes(a.run, a.lst, a.ob, a.exp_bytes)
         a.viol += v
         a.ctr.update(c)
+    rwbase.bystander(a, PROP)
     return rwbase.result(a)
